@@ -1024,12 +1024,12 @@ class Dosini(object):
         #  type: (str, bool) -> Dict[int, str]
         stages_dir = os.path.join(directory, 'stages.d')
         if is_instance is False:
-            stage_files = glob.glob(os.path.join(stages_dir, 'stage*.conf'))
+            stage_files = sorted(glob.glob(os.path.join(stages_dir, 'stage*.conf')))
             # VV: Support parsing the `non-instance` configuration files from some
             #     existing package instance
             stage_files = [path for path in stage_files if path.endswith('.instance.conf') is False]
         else:
-            stage_files = glob.glob(os.path.join(stages_dir, 'stage*.instance.conf'))
+            stage_files = sorted(glob.glob(os.path.join(stages_dir, 'stage*.instance.conf')))
 
         stage_to_paths = {}
 
